@@ -177,7 +177,7 @@ def evm_grid(ctx, differ):
         lb = lits if op != "exp" else EXP_SMALL + EXP_BIG
         pairs = [(a, b) for a in la for b in lb]
         if ctx.tier != "thorough":
-            pairs = rnd.sample(pairs, min(len(pairs), 260 if op in ("sdiv", "smod", "div", "mod", "exp") else 120))
+            pairs = rnd.sample(pairs, min(len(pairs), 160 if op in ("sdiv", "smod", "div", "mod", "exp") else 70))
         for a, b in pairs:
             s = ("bin", op, ("lit", a), ("lit", b))
             d = differ.run_shape(s, "value", rnd, max_inputs=1)
@@ -293,14 +293,14 @@ def peephole_tie(ctx):
     (Peephole.v, JumpOpt.v) on generated stack code / labelled code containing every pattern and on the unoptimised
     assemblies (runtime + deploy) the compiler emits for the corpus contracts."""
     rnd = ctx.rng("asm")
-    k = 70 if ctx.tier != "thorough" else 1000
+    k = 50 if ctx.tier != "thorough" else 1000
     asms = [("gen", c15_asm.gen_asm(rnd, rnd.randrange(3, 40))) for _ in range(k)]
     asms += [("genl", c15_asm.gen_labelled_asm(rnd, rnd.randrange(3, 45))) for _ in range(2 * k)]
     names = None
     if ctx.tier != "thorough":
         from vlib.c02_corpus import CORPUS
         from vlib.c15_corpus import OWN
-        names = set(rnd.sample([c["name"] for c in CORPUS], 2) + rnd.sample([c["name"] for c in OWN], 2))
+        names = set(rnd.sample([c["name"] for c in CORPUS], 1) + rnd.sample([c["name"] for c in OWN], 2))
     try:
         corpus = c15_asm.corpus_assemblies(names)
     except Exception:  # noqa
@@ -365,7 +365,7 @@ def glue_corpus(ctx):
     rnd = ctx.rng("glue")
     shared = list(CORPUS)
     if ctx.tier != "thorough":
-        shared = rnd.sample(shared, 14)
+        shared = rnd.sample(shared, 8)
     ncalls = 30 if ctx.tier != "thorough" else 80
     n, calls, found = 0, 0, 0
     for c in OWN + shared:
@@ -419,8 +419,12 @@ def run(ctx):
     files = ["C15/GenUtils.v", "C15/Optimizer.v", "C15/OptTree.v", "C15/FoldSound.v", "C15/PropsFold.v", "C15/OptSound.v",
              "C15/OptTreeSound.v", "C15/MergeSound.v", "C15/PropsOpt.v", "C15/Peephole.v", "C15/PeepholeSound.v", "C15/JumpOpt.v", "C15/JumpSem.v",
              "C15/JumpSound.v", "C15/JumpSound2.v", "C15/PropsPeephole.v"]
+    static = ["C15/Peephole.v", "C15/PeepholeSound.v", "C15/JumpOpt.v", "C15/JumpSem.v", "C15/JumpSound.v",
+              "C15/JumpSound2.v", "C15/Bytes.v"]
     if gen_err is None:
-        b = ctx.coq_build(files)
+        # static files (no dependence on generated code) are compiled by setup; rebuilt here only when stale
+        bs = ctx.coq_build(static, force=False)
+        b = ctx.coq_build([f for f in files if f not in static]) if bs["ok"] else bs
     model_ok = gen_err is None and (COQ / "C15" / "OptTree.vo").exists() and \
         (b["ok"] or not any(x in b.get("file", "") for x in ("GenUtils", "Optimizer.v", "OptTree.v")))
     T["coq_build"] = round(time.time() - t0, 1); t0 = time.time()
